@@ -65,7 +65,15 @@ func q(s string) string {
 	return "|" + s + "|"
 }
 
+var smtReserved = map[string]bool{"store": true, "select": true, "and": true, "or": true, "not": true, "ite": true, "let": true, "forall": true, "exists": true,
+	"true": true, "false": true, "distinct": true, "div": true, "mod": true, "abs": true, "assert": true, "as": true, "par": true, "Int": true, "Bool": true, "Real": true,
+	"Array": true, "xor": true, "to_real": true, "to_int": true, "is_int": true, "match": true, "push": true, "pop": true, "exit": true, "Str": true, "Slice": true, "typeof": true,
+	"str_len": true, "str_concat": true, "mk_slice": true, "sl_base": true, "sl_off": true, "sl_len": true, "sl_cap": true, "const": true, "lambda": true, "set": true, "map": true, "seq": true, "re": true, "bag": true, "tuple": true, "table": true, "member": true, "subset": true, "union": true, "inter": true, "insert": true, "singleton": true, "complement": true, "card": true, "choose": true, "filter": true, "fold": true, "iand": true, "int2bv": true, "bv2nat": true, "pow2": true, "exp": true, "sin": true, "cos": true, "tan": true, "pi": true, "sqrt": true, "divisible": true, "eqrange": true, "is": true, "update": true, "witness": true, "Float16": true, "Float32": true, "Float64": true, "RoundingMode": true, "String": true, "RegLan": true, "fp": true, "rel": true, "join": true, "product": true, "transpose": true, "tclosure": true, "iden": true}
+
 func (e *Enc) declConst(name, sort string) string {
+	if smtReserved[name] {
+		name = name + "!p"
+	}
 	n := q(name)
 	e.raw(n, fmt.Sprintf("(declare-fun %s () %s)", n, sort))
 	return n
@@ -275,7 +283,7 @@ func (e *Enc) zero(t types.Type) string {
 		}
 		return "(" + e.ctor(t) + " " + strings.Join(args, " ") + ")"
 	case *types.Array:
-		return fmt.Sprintf("((as const %s) %s)", s, e.zero(u.Elem()))
+		return e.constArr("Int", e.sortOf(u.Elem()), e.zero(u.Elem()))
 	}
 	panic("zero: " + t.String())
 }
@@ -428,4 +436,19 @@ func sortedKeys[V any](m map[string]V) []string {
 	}
 	sort.Strings(ks)
 	return ks
+}
+
+// constArr: constant array term; elements that are not SMT values (they mention declared constants
+// such as string literals) are expressed through a declared array with a defining axiom (cvc5 rejects them in `as const`).
+func (e *Enc) constArr(ks, vs, elem string) string {
+	srt := "(Array " + ks + " " + vs + ")"
+	if !strings.Contains(elem, "str!") {
+		return fmt.Sprintf("((as const %s) %s)", srt, elem)
+	}
+	name := q("constarr$" + ks + "$" + vs)
+	if !e.declared[name] {
+		e.raw(name, fmt.Sprintf("(declare-fun %s () %s)", name, srt))
+		e.axioms = append(e.axioms, fmt.Sprintf("(forall ((i!c %s)) (! (= (select %s i!c) %s) :pattern ((select %s i!c))))", ks, name, elem, name))
+	}
+	return name
 }
